@@ -232,6 +232,8 @@ func (gw *inclusiveGateway) Element() schema.FlowNodeInterface {
 }
 
 type flowTracker struct {
+	tracer     tracing.ITracer
+	sub        chan tracing.ITrace
 	traces     <-chan tracing.ITrace
 	shutdownCh chan bool
 	flows      map[id.Id]schema.Id
@@ -245,8 +247,11 @@ func (tracker *flowTracker) activity() <-chan struct{} {
 }
 
 func newFlowTracker(tracer tracing.ITracer, element *schema.InclusiveGateway) *flowTracker {
+	sub := tracer.Subscribe()
 	tracker := flowTracker{
-		traces:     tracer.Subscribe(),
+		tracer:     tracer,
+		sub:        sub,
+		traces:     sub,
 		shutdownCh: make(chan bool),
 		flows:      make(map[id.Id]schema.Id),
 		activityCh: make(chan struct{}, 1),
@@ -289,6 +294,9 @@ func (tracker *flowTracker) run() {
 			if locked {
 				tracker.lock.Unlock()
 			}
+			// leave the tracer: an abandoned subscription would fill up and
+			// stall the tracer (and with it every sender) for ever
+			tracker.tracer.Unsubscribe(tracker.sub)
 			return
 		default:
 			// Nothing else is coming in, unlock if locked
@@ -319,6 +327,7 @@ func (tracker *flowTracker) run() {
 			if locked {
 				tracker.lock.Unlock()
 			}
+			tracker.tracer.Unsubscribe(tracker.sub)
 			return
 		}
 
